@@ -784,3 +784,110 @@ func markerParamHelper(sc *ssa.Function, sink ssa.Value, args []ssa.Value) (int,
 	}
 	return pi, true
 }
+
+var plainBodyBusy = map[*ssa.Function]bool{}
+
+// plainBodyHelper: callee writes a fixed sequence to the sink it is handed — constant markers,
+// constant-size values and whole byte-slice parameters — straight-line (every write executed
+// exactly once on every successful path: totally ordered by dominance, none inside a loop), like
+//
+//	func writeTilePartBody(buf *bytes.Buffer, header, data []byte) error { buf.Write(header); SOD; buf.Write(data) }
+//
+// The call is replaced by those writes with the byte-slice sizes expressed in the caller's terms, so
+// that the tile-part / segment counters see through it.
+func plainBodyHelper(sc *ssa.Function, sink ssa.Value, call ssa.CallInstruction) ([]sinkWrite, bool) {
+	args := call.Common().Args
+	if sc.Blocks == nil || !load.InScope(sc) || len(args) != len(sc.Params) || plainBodyBusy[sc] || markerOnlyBusy[sc] {
+		return nil, false
+	}
+	plainBodyBusy[sc] = true
+	defer delete(plainBodyBusy, sc)
+	si := -1
+	for i, a := range args {
+		if unwrapIface(a) == sink && isSinkType(sc.Params[i].Type()) {
+			if si >= 0 {
+				return nil, false
+			}
+			si = i
+		}
+	}
+	if si < 0 {
+		return nil, false
+	}
+	ws, ordered := sinkWritesOf(sc, sc.Params[si])
+	if !ordered || len(ws) == 0 {
+		return nil, false
+	}
+	loops := naturalLoops(sc)
+	var out []sinkWrite
+	for _, w := range ws {
+		for _, l := range loops {
+			if l.Blocks[w.ins.Block()] {
+				return nil, false
+			}
+		}
+		if !onEverySuccessfulPath(sc, w.ins) {
+			return nil, false
+		}
+		nw := sinkWrite{ins: call, what: w.what, marker: w.marker, callee: sc.String() + " → " + w.callee}
+		switch w.what {
+		case "marker":
+			// only stand-alone markers (SOD, EOC, …): a helper that writes a length-bearing segment is
+			// examined where it stands, its bytes are not re-counted in every caller
+			if _, bearing := j2kSegmentMarkers[w.marker]; w.marker < 0xFF00 || bearing || w.marker == mSOT {
+				return nil, false
+			}
+			nw.size = linConst(2)
+		case "value":
+			if w.size.bad || len(w.size.terms) != 0 || w.decl != nil {
+				return nil, false
+			}
+			nw.size = w.size
+			if pi := paramIndex(sc, stripConv(w.val)); pi >= 0 && w.val != nil {
+				nw.val = args[pi]
+			}
+		case "bytes":
+			pi := -1
+			if w.val != nil {
+				pi = paramIndex(sc, w.val)
+			}
+			if pi < 0 || !isByteSlice(sc.Params[pi].Type()) {
+				return nil, false
+			}
+			nw.val = args[pi]
+			nw.size = linTerm("len(" + sliceIdentity(args[pi]) + ")")
+		default:
+			return nil, false
+		}
+		out = append(out, nw)
+	}
+	return out, true
+}
+
+// onEverySuccessfulPath: ins is executed before every return of fn that may carry a nil error (or
+// before every return, when fn has no error result).
+func onEverySuccessfulPath(fn *ssa.Function, ins ssa.Instruction) bool {
+	ei := errorResultIndex(fn)
+	n := 0
+	for _, b := range fn.Blocks {
+		if len(b.Instrs) == 0 {
+			continue
+		}
+		ret, ok := b.Instrs[len(b.Instrs)-1].(*ssa.Return)
+		if !ok {
+			continue
+		}
+		if ei >= 0 && definitelyNonNilError(ret, ei) {
+			continue
+		}
+		n++
+		if instrDominates(ins, ret) {
+			continue
+		}
+		if ei >= 0 && dominatesOnNilPaths(fn, ins, ret, ei) {
+			continue
+		}
+		return false
+	}
+	return n > 0
+}
